@@ -175,9 +175,30 @@ def _conv(r, vec):
     return vec
 
 
+def _pareto(ctx, key):
+    """a Pareto comparator obtained in one of the public ways: its `epsilons` keyword exists so that selectors can construct
+    either comparator uniformly -- the Pareto order does not depend on it"""
+    from artap.operators import ParetoDominance, TournamentSelector
+    r = ctx.rng("pareto_ctor", key)
+    how = r.choice(["plain", "plain", "kw_none", "kw_list", "kw_scalar", "selector", "selector_eps"])
+    ctx.count("pareto_comparators_built_" + how)
+    prm = [{"name": "x", "bounds": [0, 1]}]
+    if how == "plain":
+        return ParetoDominance()
+    if how == "kw_none":
+        return ParetoDominance(epsilons=None)
+    if how == "kw_list":
+        return ParetoDominance(epsilons=[r.choice([0.1, 0.5, 1e-3])] * r.randint(1, 3))
+    if how == "kw_scalar":
+        return ParetoDominance(epsilons=r.choice([0.05, 1.0]))
+    if how == "selector":
+        return TournamentSelector(prm).dominance
+    return TournamentSelector(prm, dominance=ParetoDominance, epsilons=[r.choice([0.1, 0.5])] * r.randint(1, 2)).dominance
+
+
 def run_case(ctx, name, params):
     Pareto, Eps = _ops()
-    cmp = Pareto()
+    cmp = _pareto(ctx, (name, repr(sorted(params.items()))))
     if name == "grid_pairs":
         m = params["m"]
         pts = [list(map(float, t)) for t in itertools.product((0, 1, 2), repeat=m)]
